@@ -19,7 +19,27 @@ Definition mk_num (f t s : Z) : range :=
 Definition with_size (r : range) (s : Z) : range :=
   {| rf := rf r; rt := rt r; rs := s |}.
 
-(* regexp: start, digits, dash, digits, end -- on the trimmed string (ASCII domain) *)
+(* the string as QString sees it (bytes read as Latin-1): conversion from a byte array stops at the first NUL;
+   QString::trimmed removes QChar::isSpace characters, which below U+0100 are TAB..CR, space, NEL (0x85), NBSP (0xA0) *)
+Definition qspace (c : byte) : bool :=
+  let n := N_of_ascii c in
+  (N.eqb n 32 || (N.leb 9 n && N.leb n 13) || N.eqb n 133 || N.eqb n 160)%bool.
+
+Fixpoint cut_nul (d : bytes) : bytes :=
+  match d with
+  | c :: d' => if N.eqb (N_of_ascii c) 0 then [] else c :: cut_nul d'
+  | [] => []
+  end.
+
+Fixpoint drop_qspace (d : bytes) : bytes :=
+  match d with
+  | c :: d' => if qspace c then drop_qspace d' else d
+  | [] => []
+  end.
+
+Definition qs_trim (s : bytes) : bytes := rev (drop_qspace (rev (drop_qspace (cut_nul s)))).
+
+(* regexp: start, digits, dash, digits, end -- on the trimmed string *)
 Fixpoint span_digits (d : bytes) : bytes * bytes :=
   match d with
   | c :: d' => if is_digit c then let (a, b) := span_digits d' in (c :: a, b) else ([], d)
@@ -44,7 +64,7 @@ Definition to_int_digits (d : bytes) : Z * bool :=
 
 (* Range(const QString &range, qint64 dataSize) *)
 Definition of_string (s : bytes) (size : Z) : range :=
-  match match_range_re (trimmed s) with
+  match match_range_re (qs_trim s) with
   | None => r_invalid
   | Some (d1, d2) =>
       match d1, d2 with
